@@ -435,6 +435,25 @@ func main() {
 	if !reloadShape {
 		die("reloadConf is not closeResources; conf.Store; createResources")
 	}
+	// the configuration is committed (x.conf.Store) only by New and by reloadConf: any other function
+	// storing it is a second commit path that bypasses closeResources/createResources
+	var otherStores []string
+	for _, d := range file.Decls {
+		fd, ok := d.(*ast.FuncDecl)
+		if !ok || fd.Body == nil || fd.Name.Name == "New" || fd == reload {
+			continue
+		}
+		ast.Inspect(fd.Body, func(n ast.Node) bool {
+			if c, ok := n.(*ast.CallExpr); ok {
+				if s, ok := c.Fun.(*ast.SelectorExpr); ok && s.Sel.Name == "Store" {
+					if s2, ok := s.X.(*ast.SelectorExpr); ok && s2.Sel.Name == "conf" {
+						otherStores = addUniq(otherStores, fd.Name.Name)
+					}
+				}
+			}
+			return true
+		})
+	}
 
 	// ----- createResources -----
 	p := recvName(create)
@@ -1088,6 +1107,8 @@ func main() {
 	w("def allConfTokensClassified : Bool := true  -- must: %d tokens", total)
 	w("def reloadIsCloseStoreCreate : Bool := true  -- must")
 	w("def coreLogUsesLogger : Bool := %v", logUsesLogger)
+	w("/-- no function other than New and reloadConf stores the configuration (others: %s) -/", strings.Join(otherStores, " "))
+	w("def confStoredOnlyByReload : Bool := %v", len(otherStores) == 0)
 	var statics []string
 	for _, k := range comps {
 		for _, s := range k.statics {
